@@ -592,6 +592,16 @@ def wrapper_guards(ct: Container):
         guard = None if not disj else (disj[0] if len(disj) == 1 else ast.BoolOp(op=ast.Or(), values=disj))
         provides = any(isinstance(s, ast.With) for s in walk_no_nested(inner))
         out[name] = (guard, provides)
+    # module-level aliases of a guard decorator (`_changes_file = raise_if_outside_write_context`) are the same decorator object
+    changed = True
+    while changed:
+        changed = False
+        for m in ct.prog.modules.values():
+            for st in m.tree.body:
+                if isinstance(st, ast.Assign) and len(st.targets) == 1 and isinstance(st.targets[0], ast.Name) and isinstance(st.value, ast.Name) \
+                        and st.value.id in out and st.targets[0].id not in out:
+                    out[st.targets[0].id] = out[st.value.id]
+                    changed = True
     return out
 
 
